@@ -1371,3 +1371,30 @@ def pipeline_element_sources(F, closure_fn):
                     continue
                 if any(c2.endswith(x) for x in PIPE_ADAPTORS) and t2[2]: work.append(t2[2][0])
     return out
+
+
+def private_helpers_of(F, cg, root_path, module_prefix):
+    """root plus the functions of `module_prefix` that are reachable only through it: every call site of a member (and of the
+    closures' top-level parents) lies in a member.  A helper that `run()` alone calls is part of run() for who-may-call rules."""
+    members = {root_path}
+    changed = True
+    while changed:
+        changed = False
+        for p, f in F.fns.items():
+            if p in members or module_prefix not in p or f.kind in ("const", "static", "anonconst", "promoted"): continue
+            top = f
+            while top.kind == "closure" and top.parent and F.fn(top.parent) is not None: top = F.fn(top.parent)
+            if top.path != p:
+                if top.path in members: members.add(p); changed = True
+                continue
+            callers = {g.path for g, b2 in cg.sites.get(p, [])}
+            addr = {q for q, xs in cg.addr.items() if p in xs}
+            callers |= addr
+            if callers and all((c in members) or (F.fn(c) is not None and F.fn(c).kind == "closure" and _top_path(F, c) in members) for c in callers):
+                members.add(p); changed = True
+    return members
+
+def _top_path(F, p):
+    f = F.fn(p)
+    while f is not None and f.kind == "closure" and f.parent and F.fn(f.parent) is not None: f = F.fn(f.parent)
+    return f.path if f is not None else p
